@@ -18,7 +18,7 @@ from functools import reduce
 RULE = ("enclosure families (float runs): filters of order <= 6 with dyadic coefficients k/16, |c| <= 4, some zero "
         "coefficients, denominators with |A(e^-jw)| >= 2^-10 at the probed frequency; frequencies k*pi/m "
         "(m in 1,2,3,4,6,8,12,16, incl. 0 and pi) and dyadic rationals in [0, 2 pi); cascades / parallel banks of "
-        "1-3 sections of order <= 2 (also compared bit for bit with the product / sum of the library's own "
+        "1-3 sections of order <= 2, nested cascades / banks of depth <= 3 (mostly mixed nesting, <= 5 leaves) (all also compared bit for bit with the product / sum of the library's own "
         "section responses); dft(impulse response, [w], normalize=False) of FIR filters; normalised dft of "
         "random real blocks; output sample n >= order of a FIR filter fed with exp(1j*w*n)")
 TRUSTED = [
@@ -90,6 +90,52 @@ def section(rng, maxord):
   return b, a
 
 
+def nested(rng, depth, parent=None, budget=None):
+  """nested cascade / bank of depth <= 3 with at most 5 first-order or biquad leaves; mostly mixed nesting"""
+  budget = budget if budget is not None else [5]
+  if depth == 0 or budget[0] <= 1 or (parent is not None and rng.random() < 0.4):
+    budget[0] -= 1
+    b, a = section(rng, 2)
+    return ["lin", b, a]
+  k = rng.choice(["cas", "par"])
+  if parent is not None and rng.random() < 0.75:
+    k = "par" if parent == "cas" else "cas"
+  return [k, [nested(rng, depth - 1, k, budget) for _ in range(rng.choice([2, 2, 3]))]]
+
+
+def tree_rlit(t):
+  if t[0] == "lin":
+    return "(RLin %s %s)" % (rlist(t[1]), rlist(t[2]))
+  return "(%s [%s])" % ("RCas" if t[0] == "cas" else "RPar", "; ".join(tree_rlit(c) for c in t[1]))
+
+
+def tree_build(t):
+  from audiolazy import ZFilter, CascadeFilter, ParallelFilter
+  if t[0] == "lin":
+    return ZFilter(list(t[1]), list(t[2]))
+  return (CascadeFilter if t[0] == "cas" else ParallelFilter)(*[tree_build(c) for c in t[1]])
+
+
+def tree_tol(t, w):
+  """(|H|, tolerance) of a nested filter, None if a denominator or a factor is too small"""
+  if t[0] == "lin":
+    r = fr_tol(t[1], t[2], w)
+    return None if r is None else (abs(r[1]), TOL * r[0], r[1])
+  subs = [tree_tol(c, w) for c in t[1]]
+  if any(x is None for x in subs):
+    return None
+  if t[0] == "cas":
+    if min(x[0] for x in subs) < 2.0 ** -20:
+      return None
+    val = reduce(operator.mul, [x[2] for x in subs])
+    prod = reduce(operator.mul, [x[0] for x in subs])
+    tol = Fraction(prod) * sum(x[1] / Fraction(x[0]) for x in subs) * Fraction(9, 8) + TOL * Fraction(prod) / 16
+  else:
+    val = sum(x[2] for x in subs)
+    tol = sum(x[1] for x in subs) + TOL * Fraction(sum(x[0] for x in subs)) / 16
+  return abs(val), tol, val
+
+
 def poly_at(l, w):
   return sum(c * cmath.exp(-1j * w * k) for k, c in enumerate(l))
 
@@ -106,7 +152,7 @@ def fr_tol(b, a, w):
 def gen(tier, rng):
   quick = tier == "quick"
   # samples per family: (single, cascade, parallel, impulse-dft, dft-normalised, steady)
-  n1, n2, n3, n4, n5 = (50, 10, 12, 8, 12) if quick else (600, 120, 200, 100, 200)
+  n1, n2, n3, n4, n5, n6 = (46, 8, 8, 4, 10, 10) if quick else (600, 120, 200, 100, 200, 150)
   cases = []
   for _ in range(n1):
     b, a = section(rng, 6)
@@ -117,10 +163,22 @@ def gen(tier, rng):
     for _ in range(n2):
       secs = [list(section(rng, 2)) for _ in range(rng.choice([1, 2, 2] if quick else [1, 2, 2, 2, 3]))]
       cases.append({"fam": fam, "secs": secs, "w": freq(rng)})
+  for _ in range(n6):
+    cases.append({"fam": "nested", "tree": nested(rng, 3), "w": freq(rng)})
   for _ in range(n3):
     b = coeffs(rng, rng.randrange(1, 8))
     a0 = rng.choice([1.0, 1.0, -1.0, 2.0, 0.5, -4.0])
     cases.append({"fam": "impulse-dft", "secs": [[b, [a0]]], "w": freq(rng), "len": len(b) + rng.randrange(0, 4)})
+  # the two frequencies where exp(-1j*n*w) is (nearly) real, on blocks of odd and even length
+  for w in (0.0, math.pi):
+    for ln in (1, 2, 3, 5):
+      x = coeffs(rng, ln)
+      x[-1] = x[-1] or 1.5
+      cases.append({"fam": "dft-normalised", "blk": x, "w": w})
+    for ln in (1, 3, 4):
+      b = coeffs(rng, ln)
+      b[-1] = b[-1] or -0.75
+      cases.append({"fam": "impulse-dft", "secs": [[b, [rng.choice([1.0, 2.0, -1.0])]]], "w": w, "len": ln})
   for _ in range(n4):
     x = coeffs(rng, rng.randrange(1, 9))
     cases.append({"fam": "dft-normalised", "blk": x, "w": freq(rng)})
@@ -168,6 +226,17 @@ def observe(c):
       tol = sum(TOL * t[0] for t in tols) + TOL * Fraction(sum(hs)) / 16
     return {"v": v, "spec": "(spec_%s %s %s)" % (fam, secs_lit(c["secs"]), rlit(w)), "tol": tol,
             "exact_ok": exact_ok, "own": [repr(x) for x in own]}
+  if fam == "nested":
+    t = c["tree"]
+    tt = tree_tol(t, w)
+    if tt is None:
+      return {"skip": "denominator or factor too close to zero"}
+    filt = tree_build(t)
+    v = filt.freq_response(w)
+    own = [x.freq_response(w) for x in filt] if t[0] != "lin" else [v]
+    same = reduce(operator.mul if t[0] == "cas" else operator.add, own) if t[0] != "lin" else v
+    return {"v": v, "spec": "(spec_tree %s %s)" % (tree_rlit(t), rlit(w)), "tol": tt[1],
+            "exact_ok": (v == same) or (v != v and same != same), "own": [repr(x) for x in own]}
   if fam == "impulse-dft":
     b, a = c["secs"][0]
     filt = ZFilter(list(b), list(a))
